@@ -462,8 +462,9 @@ def plan_for(thorough):
         name = "%s|%s" % (a, b)
         if name not in ("ckd0|ckd0", "ckd0|ckd1"):
             plan.append((name, "state", 1))
-    plan += [("p2wpkh|p2sh_p2wsh", "all", 1), ("p2pkh0|p2pkh1", "all", 1)]
+    plan += [("p2wpkh|p2sh_p2wsh", "all", 1)]
     if thorough:
+        plan += [("p2pkh0|p2pkh1", "all", 1)]
         plan = [(n, g, 3 if n in ("ckd0|ckd0", "ckd0|ckd1") else b) for n, g, b in plan]
         plan += [("ckd0|ckd1|ckd2", "state", 2), ("bpA|bpB", "state", 2), ("children|gen", "state", 2), ("gen|gen", "state", 2), ("wif0|wif1", "state", 2),
                  ("xkeys|ckd0", "state", 2), ("hex|bpA", "state", 2), ("generate|wasabi", "state", 1),
